@@ -44,10 +44,12 @@ UNIT = {
         # C02 "or that no section defines, is reported as ... missing"; C18 origin of the missing-object error
         ('beyond_table_is_missing', NOT_PENDING + '(self.entry(r.id) is None ==> (res matches Err(e) && root(e) == PdfError::UnspecifiedXRefEntry { id: r.id }))'),
         # C02 the value the newest entry points to; C17 "all offsets in the file being taken relative to the header"
+        # ISO 32000-1 7.5.4: the entry of object n gives the offset of object n: what stands there must say `n g obj`, else an error
         ('raw_parsed_relative_to_header', NOT_PENDING + '''(self.entry(r.id) matches Some(XRef::Raw { pos, .. }) ==>
               if self.start_offset + pos > self.backend.bytes().len() { res is Err }
               else { match object_at(self.backend.bytes(), self.start_offset + pos, self.decoder, flags) {
-                         Ok(p) => res == Ok::<Primitive, PdfError>(p), Err(_) => res is Err } })'''),
+                         Ok(p) => if header_id_at(self.backend.bytes(), self.start_offset + pos) == r.id { res == Ok::<Primitive, PdfError>(p) } else { res is Err },
+                         Err(_) => res is Err } })'''),
         ('compressed_is_stream_member', NOT_PENDING + '''(self.entry(r.id) matches Some(XRef::Stream { stream_id, index }) ==>
               match member_of(stream_id, index as int, flags) { Ok(p) => res == Ok::<Primitive, PdfError>(p), Err(_) => res is Err })'''),
         # C02 "A number whose most recent mention frees it ... is reported as free ..., never as an older value"
